@@ -30,6 +30,9 @@ class RowEval:
 
     # ---------------------------------------------------------------- ints
     def val(self, e: ast.AST):
+        key = dump(e)
+        if key in self.ints:
+            return self.ints[key]
         if isinstance(e, ast.Constant) and isinstance(e.value, (int, float)) and not isinstance(e.value, bool):
             return e.value
         if isinstance(e, ast.Name):
@@ -116,6 +119,10 @@ class RowEval:
                 raise Unknown("count part of _repeat_params used as rows")
             elts = e.slice.elts if isinstance(e.slice, ast.Tuple) else [e.slice]
             first = elts[0]
+            if self._is_where_index(first):
+                return self.rows_of_name["<where>"]  # number of rows selected by a mask: symbol j
+            if self._is_where_index(e):
+                return self.rows_of_name["<where>"]
             base = self.rows(e.value)
             if isinstance(first, ast.Slice):
                 if first.lower is None and first.upper is None:
@@ -128,6 +135,8 @@ class RowEval:
             if isinstance(first, (ast.Name, ast.Constant)) and not (isinstance(first, ast.Name) and first.id in self.rows_of_name):
                 return 1  # one row selected by an integer index (params[i,])
             raise Unknown("index")
+        if isinstance(e, ast.BinOp) and isinstance(e.op, ast.BitOr):
+            return self.rows(e.left) + self.rows(e.right)  # Points.__or__: row concatenation
         if isinstance(e, ast.BinOp) and isinstance(e.op, (ast.Add, ast.Sub, ast.Mult, ast.Div)):
             a, b = self._rows_or_scalar(e.left), self._rows_or_scalar(e.right)
             return self._broadcast(a, b, e)
@@ -180,6 +189,11 @@ class RowEval:
             if name == "repeat_interleave" and isinstance(fn, ast.Attribute) and e.args:
                 return self.rows(fn.value) * int(self.val(e.args[0]))
         raise Unknown(dump(e)[:50])
+
+    @staticmethod
+    def _is_where_index(e) -> bool:
+        return (isinstance(e, ast.Subscript) and isinstance(e.value, ast.Call) and attr_chain(e.value.func) == "torch.where"
+                and isinstance(e.slice, ast.Constant) and e.slice.value == 0)
 
     def _rows_or_scalar(self, e):
         try:
